@@ -106,6 +106,7 @@ func main() {
 	if pi := mon.Guard(func() { f(ctx) }); pi != nil {
 		rep.Violation(*prop+"/unguarded-panic/"+pi.Func, pi.Value, nil)
 	}
+	checkHeld(ctx)
 	if err := rep.Write(filepath.Join(*out, "result.json")); err != nil {
 		fmt.Fprintln(os.Stderr, "write result:", err)
 		os.Exit(5)
